@@ -1,4 +1,5 @@
 import DaeVerif.C20.Meta
+import DaeVerif.C20.Scope
 /-!
 # C20 — property theorems
 
@@ -548,6 +549,41 @@ theorem drain_wait_bounded (maxWait : Int) (sessions : Nat) (idleAt cancelAt : O
     drainTime maxWait sessions idleAt cancelAt ≤ maxWait.toNat ∧
     drainResults maxWait sessions idleAt cancelAt ≠ [] := by
   exact ⟨drainTime_le_budget _ _ _ _, drainResults_ne_nil _ _ _ _⟩
+
+/-! ### the scope counter itself: Begin / End as concurrent operations on one word -/
+
+/-- **Every `EndReloadProxyFailureSuppression` that returns has decremented the counter exactly once, under
+every interleaving of any number of threads** (Begin = one atomic add; End = Load, then CompareAndSwap,
+retried until it wins): no End returns at the clamp, none returns after a lost CAS, the counter word
+always equals the scopes waiting for their End plus the End calls in flight — and when all threads are
+done and as many scopes were ended as begun, the counter is 0: the muting is lifted.  (The transition
+system `suppress` field of the main model treats End as one atomic step; this is what justifies it.) -/
+theorem scope_counter_balanced (progs : List (List Scope.Op)) (sched : List Nat) (s : Scope.S)
+    (h : Scope.run true (Scope.mk progs) sched = some s) :
+    s.clamped = 0 ∧ s.lost = 0 ∧ s.counter = s.pool + Scope.sumF Scope.infl s.threads ∧
+    (Scope.finished s → (progs.map Scope.cntB).sum = (progs.map Scope.cntE).sum → s.counter = 0) := by
+  have hI := Scope.inv_run sched (Scope.inv_mk progs) h
+  refine ⟨hI.noClamp, hI.noLost, hI.cnt, fun hf hb => ?_⟩
+  have z1 := Scope.sum_finished Scope.infl (by intro st; cases st <;> rfl) s.threads hf
+  have z2 := Scope.sum_finished Scope.nb (by intro st; rfl) s.threads hf
+  have z3 := Scope.sum_finished Scope.ue (by intro st; cases st <;> rfl) s.threads hf
+  have hc := hI.cnt
+  have hbal := hI.bal
+  omega
+
+/-- two threads, one scope each; thread 0's CAS loses to thread 1's Begin and is retried: counter 0. -/
+example : (Scope.run true (Scope.mk [[.begin, .end_], [.begin, .end_]]) [0, 0, 0, 1, 0, 0, 0, 1, 1, 1]).map
+    (fun s => (s.counter, s.lost, s.threads.all fun t => t.prog.isEmpty)) = some (0, 0, true) := by decide
+
+/-- **the single-attempt variant (one Load, one CAS, return) loses an End** on the same interleaving:
+both threads are done, both scopes were ended, and the counter is stuck at 1 — muted forever. -/
+example : (Scope.run false (Scope.mk [[.begin, .end_], [.begin, .end_]]) [0, 0, 0, 1, 0, 1, 1, 1]).map
+    (fun s => (s.counter, s.lost, s.threads.all fun t => t.prog.isEmpty)) = some (1, 1, true) := by decide
+
+/-- the production shape: the release of request N (End on the release goroutine) overlaps the accept of
+request N+1 (Begin on the main loop), then N+1 is released. -/
+example : (Scope.run true (Scope.mk [[.begin, .begin], [.end_, .end_]]) [0, 1, 1, 0, 1, 1, 1, 1, 1, 1]).map
+    (fun s => (s.counter, s.lost, s.threads.all fun t => t.prog.isEmpty)) = some (0, 0, true) := by decide
 
 /-! ### the retirement's budget counts from the arrival of the request it belongs to -/
 
